@@ -34,14 +34,15 @@ import (
 )
 
 type kase struct {
-	id     int
-	decode bool
-	enc    string // ttlv, xml, json, text (text: encode only)
-	target *c02.Target
-	value  any    // encode: the value (pointer)
-	data   []byte // decode: the input
-	minor  int    // version for the layout of decoded results (-1 none)
-	desc   string
+	id      int
+	decode  bool
+	enc     string // ttlv, xml, json, text (text: encode only)
+	target  *c02.Target
+	value   any    // encode: the value (pointer)
+	data    []byte // decode: the input
+	minor   int    // version for the layout of decoded results (-1 none)
+	errOnly bool   // a refused input is recorded as "ERR" without the message text
+	desc    string
 }
 
 func h(b []byte) string {
@@ -128,6 +129,55 @@ func buildCases(seed uint64, n int) []kase {
 			data = wire.Gen(tree)
 		}
 		add(kase{decode: true, enc: de, target: t, data: data, minor: vminor, desc: fmt.Sprintf("decode %s from %s", t.Name, de)})
+		if i%5 == 2 {
+			// the same input with one nested structure left out: accepted or refused (the structure may be optional or
+			// mandatory) - the same way whatever the process did before
+			cut := tree
+			var parents []*wire.Node
+			cut.Walk(func(_ []int, x *wire.Node) {
+				for k := range x.Children {
+					if x.Children[k].Type == wire.Structure {
+						parents = append(parents, x)
+						break
+					}
+				}
+			})
+			if len(parents) > 0 {
+				p := parents[r.Intn(len(parents))]
+				cp := cloneTree(tree)
+				// locate the same parent in the copy by walking in the same order
+				var cparents []*wire.Node
+				cp.Walk(func(_ []int, x *wire.Node) {
+					for k := range x.Children {
+						if x.Children[k].Type == wire.Structure {
+							cparents = append(cparents, x)
+							break
+						}
+					}
+				})
+				for idx := range parents {
+					if parents[idx] == p {
+						q := cparents[idx]
+						for k := range q.Children {
+							if q.Children[k].Type == wire.Structure {
+								q.Children = append(q.Children[:k:k], q.Children[k+1:]...)
+								break
+							}
+						}
+					}
+				}
+				var cdata []byte
+				switch de {
+				case "xml":
+					cdata = xtree.WriteXML(cp)
+				case "json":
+					cdata = xtree.WriteJSON(cp)
+				default:
+					cdata = wire.Gen(cp)
+				}
+				add(kase{decode: true, errOnly: true, enc: de, target: t, data: cdata, minor: vminor, desc: fmt.Sprintf("decode %s from %s with one nested structure left out", t.Name, de)})
+			}
+		}
 	}
 	// two suppliers' packages, both called "payloads", both with a type called Probe: the same printed type name,
 	// different types. Which of the two a process meets first varies between the histories.
@@ -139,6 +189,27 @@ func buildCases(seed uint64, n int) []kase {
 		add(kase{enc: e, target: probeG, value: &globexp.Probe{Serial: []byte{byte(j), 2, 3}, Level: int64(j) << 33, Label: strings.Repeat("g", j), Extra: int32(-j)}, minor: -1, desc: "encode globex/payloads.Probe as " + e})
 	}
 	return out
+}
+
+func errResult(k *kase, err error) string {
+	if k.errOnly {
+		return "ERR"
+	}
+	return "ERR:" + err.Error()
+}
+
+func cloneTree(n wire.Node) wire.Node {
+	c := n
+	if n.Bytes != nil {
+		c.Bytes = append([]byte{}, n.Bytes...)
+	}
+	if n.Children != nil {
+		c.Children = make([]wire.Node, len(n.Children))
+		for i := range n.Children {
+			c.Children[i] = cloneTree(n.Children[i])
+		}
+	}
+	return c
 }
 
 func encodeWith(e *ttlv.Encoder, k *kase) []byte {
@@ -227,7 +298,7 @@ func run(k *kase) (res string) {
 	}
 	v, err := c02.Decode(k.enc, k.data, k.target)
 	if err != nil {
-		return "ERR:" + err.Error()
+		return errResult(k, err)
 	}
 	return decodedDigest(k, v)
 }
@@ -242,6 +313,9 @@ func decodedDigest(k *kase, v any) string {
 	}
 	t, err := refmodel.Tree(v, k.minor)
 	if err != nil {
+		if k.errOnly {
+			return "UNLAYOUTABLE"
+		}
 		return "UNLAYOUTABLE:" + err.Error()
 	}
 	return h(wire.Gen(t))
@@ -325,6 +399,10 @@ func Spec() *core.Spec {
 				res := map[int]string{}
 				for k := range cases {
 					res[cases[k].id] = run(&cases[k])
+					if cases[k].errOnly && !strings.HasPrefix(res[cases[k].id], "PANIC") {
+						c.Count("reference_results_of_incomplete_inputs", 1)
+						continue // an incomplete input may be refused; only the sameness of its result is judged
+					}
 					if strings.HasPrefix(res[cases[k].id], "PANIC") || strings.HasPrefix(res[cases[k].id], "ERR") || strings.HasPrefix(res[cases[k].id], "UNLAYOUTABLE") {
 						c.Count("reference_results_not_ok", 1)
 						c.Violation("C20:reference-case-fails:"+cases[k].enc+":"+cases[k].target.Name, fmt.Sprintf("%s fails even alone in a fresh process: %s", cases[k].desc, res[cases[k].id]), nil)
@@ -497,7 +575,7 @@ func Spec() *core.Spec {
 										}()
 										d, err := ttlv.NewTTLVDecoder(buf)
 										if err != nil {
-											record(k.id, "ERR:"+err.Error())
+											record(k.id, errResult(k, err))
 											return
 										}
 										first := prev.target.New()
@@ -509,7 +587,7 @@ func Spec() *core.Spec {
 											// a headerless item after a message is decoded under that message's version; only
 											// messages (which reset the version themselves) are compared
 											if strings.HasSuffix(k.target.Name, "Message") {
-												record(k.id, "ERR:"+err.Error())
+												record(k.id, errResult(k, err))
 											}
 											return
 										}
